@@ -32,6 +32,7 @@ func defC03() *ph.Def {
 			{Name: "l", Kind: ph.StrS, Min: 1, Max: 2},
 			{Name: "n", Kind: ph.IntS, Min: 1, Max: 2},
 			{Name: "m", Kind: ph.Map, Min: 1, Max: 2},
+			{Name: "o", Kind: ph.StrOpt, DefS: "OD"},
 		},
 		Cmds: []*ph.CmdDef{
 			{Name: "c", Opts: []ph.OptDef{{Name: "d", Kind: ph.Bool}}, Cmds: []*ph.CmdDef{{Name: "e"}}},
@@ -80,8 +81,8 @@ func init() {
 	register(&Check{
 		ID:        "C03",
 		QuickSecs: 300, ThoroSecs: 1200,
-		Rule: "input-space exploration of the real parser: every argv of length <= L over a 21-token alphabet (positionals, empty string, lonesome dash, terminator, known/unknown long, short and bundled options, attached and detached values, multi-value string / int / map options with optional further values, command names) " +
-			"in all 18 mode x unknown-mode x require-order configurations plus 36 in which the command, or only its sub-command, sets a different unknown-mode than the root, and 6 in which that sub-command is the only command that does; remaining compared (i) model-free as a sub-sequence of the input and (ii) with the reference model; states = argv prefixes visited, transitions = token appends, " +
+		Rule: "input-space exploration of the real parser: every argv of length <= L over a 21-token alphabet (positionals, empty string, lonesome dash, terminator, known/unknown long, short and bundled options, attached and detached values, multi-value string / int / map options with optional further values, an optional-value option with and without attached value, command names) " +
+			"in all 18 mode x unknown-mode x require-order configurations plus 36 in which the command, or only its sub-command, sets a different unknown-mode than the root, and 6 in which that sub-command is the only command that does, plus 9 in which only the command sets require-order; remaining compared (i) model-free as a sub-sequence of the input and (ii) with the reference model; states = argv prefixes visited, transitions = token appends, " +
 			"distinct_nontrivial = distinct (configuration, argv) cases inside the specified territory (every enumerated case is distinct by construction)",
 		Assume: []string{"tokens outside the alphabet and argv longer than L are not covered", "cases in the closed list of unspecified zones (DESIGN.md section 3) are only checked model-free"},
 		Run: func(c *RunCtx) {
@@ -93,7 +94,7 @@ func init() {
 			// options only the command knows, given before the command name, alone and bundled with an unknown letter;
 			// the help option (HelpCommand) in the middle of a command line; dashes directly followed by `=`;
 			// a bundle whose valued letter is not the last one
-			ext := []string{"-dz", "--d", "-zd", "--help", "-=5", "--=x", "-sa", "-sz", "w"}
+			ext := []string{"-dz", "--d", "-zd", "--help", "-=5", "--=x", "-sa", "-sz", "w", "--o=x", "--o"}
 			defs := configs(defC03, []bool{false, true})
 			// the command sets an unknown-mode of its own (SetUnknownMode after NewCommand)
 			for _, d := range configs(defC03, []bool{false}) {
@@ -127,6 +128,15 @@ func init() {
 						defs = append(defs, &d4)
 					}
 				}
+			}
+			// require-order set on the command only (the root parses in any order)
+			for _, d := range configs(defC03, []bool{false}) {
+				root := d.Root
+				kid := *d.Root.Cmds[0]
+				kid.RequireOrder = true
+				root.Cmds = []*ph.CmdDef{&kid, d.Root.Cmds[1]}
+				d.Root = root
+				defs = append(defs, d)
 			}
 			c.Res.Bounds = map[string]any{"L": depth, "alphabet": alpha, "alphabet_extension_for_argv_shorter_than_L": ext, "configurations": len(defs)}
 			dist := distinctSet{}
